@@ -1576,6 +1576,8 @@ func (f *File) AddRetract(vi VersionInterval, rationale string) error {
 			r.Syntax.Comment().Before = append(r.Syntax.Comment().Before, com)
 		}
 	}
+	r.Rationale = parseDirectiveComment(nil, r.Syntax)
+	f.Retract = append(f.Retract, r)
 	return nil
 }
 
